@@ -255,5 +255,12 @@ def run_inverse_consistency(ctx: Ctx) -> None:
                 want_shape = [1] + [n - 2 for n in reversed(size)]
                 if list(out.shape) != want_shape:
                     return False, f"margin=1 result shape {tuple(out.shape)} expected {want_shape}"
+                # fractional margin on a non-cubic grid: int(margin * n_j) samples per side along axis j (x first)
+                size2 = (8, 4) if D == 2 else (8, 4, 5)
+                g2 = it.new(Grid, size=size2, spacing=STensor.from_flat(s, [D]), align_corners=ac)
+                out = it.call(f, fwd, inv, grid=g2, margin=Fraction(1, 4), reduction="none")
+                want_shape = [1] + [n - 2 * int(0.25 * n) for n in reversed(size2)]
+                if list(out.shape) != want_shape:
+                    return False, f"margin=0.25 on grid size {size2}: result shape {tuple(out.shape)} expected {want_shape}"
                 return True, ""
             _guard(ctx, "T17.inverse-consistency", f"D={D}:ac={ac}", f, f"inverse consistency D={D} align_corners={ac}", th)
